@@ -155,6 +155,7 @@ type c01Case struct {
 	ID   string
 	Text func() string
 	Toks func() []token.Token
+	Pre  string // text every entry point is given first (same pooled instances): the call on Text must survive whatever that left behind
 }
 
 var (
@@ -214,6 +215,10 @@ func c01Child(a *ChildArgs) {
 			a.Rec.Distinct("inputs", in)
 			ntok := int64(len(in))/1 + 64
 			for _, ep := range textEPs {
+				if cs.Pre != "" {
+					pre := cs.Pre
+					c01Call(a, cs.ID, ep.Name, pre, 4*int64(len(pre))+2064, func() { ep.F(pre) })
+				}
 				c01Call(a, cs.ID, ep.Name, in, 4*ntok+2064, func() { ep.F(in) })
 			}
 		} else {
@@ -373,6 +378,13 @@ func c01Cases(a *ChildArgs) []c01Case {
 					}
 					cs = append(cs, c01Case{ID: fmt.Sprintf("litpair/%d-%d-%d", li, ri, ci), Text: func() string { return fmt.Sprintf(ctx, l1+" "+cmp+" "+l2) }})
 				}
+			}
+		}
+		// pairs of calls on the same pooled instances: a short or oddly laid-out text right after an ordinary one
+		for pi, pre := range []string{"SELECT 1", "SELECT\t1,\t2\t/* tabs */", "\t\t\tSELECT a FROM t", "SELECT a /* c */ FROM t -- x", "SELECT 'abc", "SELECT a FROM t WHERE a = 1 AND b = 2 ORDER BY c", "SELECT 1;\nSELECT 2;\nSELECT 3"} {
+			for ti, text := range []string{"      ", " ", "\t", "\t\t\t\t", "    SELECT 1", strings.Repeat(" ", 20) + "x", strings.Repeat(" ", 30) + "/* c */", "", ";", "\n", "  \n  ", strings.Repeat(" ", 12) + "'x", "-- c", "      -- c"} {
+				pre, text := pre, text
+				cs = append(cs, c01Case{ID: fmt.Sprintf("after/%d/%d", pi, ti), Pre: pre, Text: func() string { return text }})
 			}
 		}
 		sizes := []int{1, 2, 3, 50, 99, 100, 101, 150, 1000, 4000}
